@@ -106,11 +106,16 @@ func (c *Checker) storeInCache(hashesToRequest, respHashes []hostnameHash) {
 	}
 
 	for _, hash := range hashesToRequest {
-		val := c.cache.Get(hash[:prefixLen])
-		if val == nil {
-			var pref prefix
-			copy(pref[:], hash[:])
+		var pref prefix
+		copy(pref[:], hash[:])
 
+		// Don't rely on the cache alone to tell whether there is a response
+		// for the prefix, since a small cache may have already evicted the
+		// item stored above.
+		_, hasResp := hashToStore[pref]
+
+		val := c.cache.Get(hash[:prefixLen])
+		if val == nil && !hasResp {
 			c.setCache(pref, nil)
 		}
 	}
